@@ -159,7 +159,7 @@ func GenDistrCfg(t *rapid.T, o DistrGenOpts) DCfg {
 		}
 		if i == 0 && manySources > 0 {
 			for k := 0; k < manySources; k++ {
-				a := DAcc{Type: tBase, Id: FreshAddr(7000 + k).String()}
+				a := DAcc{Type: tBase, Id: FreshAddr(60000 + k).String()}
 				used[a.Key()] = true
 				sd.Sources = append(sd.Sources, a)
 			}
